@@ -5,7 +5,7 @@
    No new model code.  Over the complex numbers [CS]. *)
 From Coq Require Import Reals Lra QArith Qreals Qcanon.
 From Coquelicot Require Import Complex.
-From LV Require Import Lib.Cis Model.Tilt Proofs.TiltP Model.Fft Proofs.FftP Proofs.DftInvP.
+From LV Require Import Lib.Cis Model.Tilt Proofs.TiltP Model.Fft Proofs.FftP Proofs.FftDeepP Proofs.DftInvP.
 From LV Require Import Model.Segment Proofs.ArrP Proofs.ExtentP Proofs.FieldP Proofs.DftP Proofs.PlaneP
                        Proofs.PropagateP Proofs.SegmentP Proofs.ChainP.
 Local Open Scope Z_scope.
@@ -334,9 +334,9 @@ Lemma fft_leg_structure N0 N1 (w : Fft.wavefront CS) du os scratch pt :
                     (dft_full (@mkArr CS N0 N1 (fun x y => embed_sum (Fft.wdata w) (x - N0 / 2) (y - N1 / 2))) a b).
 Proof.
   intros H0 H1 Ht Hpt Hg Hsc.
-  destruct (fft_field_spec CS CS_ring CS_kernel CS_periodic sq N0 N1 w scratch H0 H1 Hg Hsc) as (F & sc & E & S1 & S2 & V).
-  exists F, sc. split.
-  { unfold propagate_fft_N. rewrite Ht, Hpt. cbn [rbind out_shape]. rewrite E. cbn [rbind fst snd]. reflexivity. }
+  destruct (propagate_fft_N_full_grid CS CS_ring CS_kernel CS_periodic sq N0 N1 w du os scratch pt H0 H1 Ht Hpt Hg Hsc)
+    as (F & sc & E & S1 & S2 & V).
+  exists F, sc. split; [exact E|].
   split; [exact S1|]. split; [exact S2|]. intros a b Ha Hb. rewrite (V a b Ha Hb).
   unfold dft_full, grid_of. cbn [nr nc kmul CS].
   replace (zq (a - N0 / 2) - 0)%Qc with (zq (a - N0 / 2)) by ring.
